@@ -19,8 +19,10 @@ package rueidislock
 //
 //	R1 two-live-holders       two holders of one name have live contexts at a quiescent point and neither is "lost"
 //	                          (names on which ForceWithContext is used are not judged)
-//	R2 success-without-majority / released-while-live
-//	                          a live holder that is not "lost" owns fewer than KeyMajority keys
+//	R2 success-without-majority / released-while-live / gave-up-keys-while-live / keys-taken-while-live
+//	                          a live holder that is not "lost" owns fewer than KeyMajority keys (the four names tell how
+//	                          it got there: never had them; its release deleted them first; a monitor deleted them after a
+//	                          failed extension without anybody asking for a release; another Locker's script took them)
 //	R3 loss-not-noticed       a live holder owns fewer than KeyMajority keys for longer than
 //	                          KeyValidity + ExtendInterval + (KeyValidity/2 + 1 s) of fake time
 //	R4 waiter-never-acquired  the run ends idle (only time could pass) with a WithContext call still waiting although its
@@ -220,6 +222,7 @@ type lockAttempt struct {
 	reached bool   // a script presenting val was executed by the model
 	refused string // an acquire script presenting val found the key held by this other value ("" = never refused)
 	setOK   int    // acquire scripts presenting val that set their key
+	taken   int    // keys carrying val that another Locker's script overwrote although nobody forces this name
 }
 
 type lockSess struct {
@@ -404,8 +407,18 @@ func (m *lockMon) apply(argv []string, reply resp.Value, at time.Time, scriptVal
 			}
 		}
 		if old, ok := m.mirror[argv[1]]; ok && old.val != argv[2] {
-			m.lose(old.val, "overwritten")
-			m.out.probe("key-overwritten")
+			name, _, _ := m.parseKey(argv[1])
+			if inScript && !m.forced[name] {
+				// a Locker's script replaced a value that was still valid, on a name nobody forces: that is no excuse for
+				// the holder it was taken from; the rules below see a live holder below its majority
+				if a := m.attempts[old.val]; a != nil {
+					a.taken++
+				}
+				m.out.probe("key-taken-by-a-locker-without-force")
+			} else {
+				m.lose(old.val, "overwritten")
+				m.out.probe("key-overwritten")
+			}
 		}
 		m.mirror[argv[1]] = mirrorEnt{val: argv[2], exp: exp}
 	case "DEL":
@@ -417,7 +430,13 @@ func (m *lockMon) apply(argv []string, reply resp.Value, at time.Time, scriptVal
 			if old, ok := m.mirror[k]; ok {
 				n++
 				delete(m.mirror, k)
-				if !(inScript && scriptVal == old.val) {
+				if inScript && scriptVal != old.val {
+					// a Locker's script deleted a value it did not present: no excuse for the holder it belonged to
+					if a := m.attempts[old.val]; a != nil {
+						a.taken++
+					}
+					m.out.probe("key-taken-by-a-locker-without-force")
+				} else if !inScript {
 					m.lose(old.val, "deleted by another client")
 					if a := m.attempts[old.val]; a != nil && a.sess != nil && a.sess.state == 2 && a.sess.att == a && a.sess.doneStep < 0 {
 						m.out.probe("ghost-del-of-live-holder-key")
@@ -645,7 +664,13 @@ func (m *lockMon) onStep(s *sched.Sim) error {
 				continue
 			}
 			if !h.att.lost {
-				if h.maxOwned >= m.p.Majority {
+				if h.att.taken > 0 {
+					m.flag(h, "keys-taken-while-live", "%s: %d of its keys were overwritten by another Locker's script although nobody uses ForceWithContext on this name; it is down to %d of %d keys (majority %d) at step %d and its lock context is still live",
+						m.describe(h), h.att.taken, own, m.total, m.p.Majority, s.Step)
+				} else if h.maxOwned >= m.p.Majority && h.releaseStep < 0 {
+					m.flag(h, "gave-up-keys-while-live", "%s: nobody asked it to release, yet its own delete script has brought it down to %d of %d keys (majority %d) at step %d while its lock context is still live (a monitor whose extension failed deletes its key before the context is cancelled); nothing else ever touched its keys",
+						m.describe(h), own, m.total, m.p.Majority, s.Step)
+				} else if h.maxOwned >= m.p.Majority {
 					m.flag(h, "released-while-live", "%s: its own release script has brought it down to %d of %d keys (majority %d) at step %d while its lock context is still live and nothing else ever touched its keys",
 						m.describe(h), own, m.total, m.p.Majority, s.Step)
 				} else {
